@@ -22,6 +22,19 @@ def cases(tier, rng):
             k = rng.range(2, 5) if thorough else rng.range(2, 3)
             line = "c02 %s %d %s" % (c, k, sc)
             cs.append({"line": line, "key": line, "tags": {"carrier": c, "k": k, "sc": sc}})
+    # scenarios that run on the implementation only (the property is evaluated on what they observe):
+    #  stall-up / stall-down: one connection holds 3 MiB unread inside the tunnel (its target is a synchronous pipe), below the shared 4 MiB
+    #  other-refused: another application asks for a channel the server does not offer while a transfer is under way
+    #  raw-idle: a stream that was opened and has not sent its first octet yet (a peer of the harness's own making, socket carriers)
+    for c in (CARRIERS + ["unix", "wss", "tcp+tls"] if thorough else ["tcp", "ws", "kcp"]):
+        for sc in ("stall-up", "stall-down", "other-refused"):
+            if not thorough and c != "tcp" and sc != "stall-up":
+                continue
+            line = "c02 %s 3 %s" % (c, sc)
+            cs.append({"line": line, "key": line, "model": False, "tags": {"carrier": c, "k": 3, "sc": sc}})
+    for c in (["tcp", "tcp-starttls"] if thorough else ["tcp"]):
+        line = "c02 %s 3 raw-idle" % c
+        cs.append({"line": line, "key": line, "model": False, "tags": {"carrier": c, "k": 3, "sc": "raw-idle"}})
     return cs
 
 
@@ -30,6 +43,8 @@ def oracle(case, impl):
     p = impl.split()
     if not p or p[0] in ("panic", "died", "timeout", "harness-error", "setup"):
         return [("crash;carrier=" + t["carrier"], "scenario crashed: " + impl[:150])]
+    if "first-half" in p or "second-half" in p:
+        return [("disturbed-by-refused-channel", "a transfer was cut when another application asked for a channel the server does not offer: " + impl[:100])]
     if p[:2] != ["open1", "ok"]:
         return [("no-connection;carrier=" + t["carrier"], "the first logical connection could not be opened")]
     out = []
